@@ -22,7 +22,7 @@ def nontrivial(line):
         return ("e2e", f.get("pssm"), f.get("seq")) if f.get("seq", "-") != "-" else None
     if f.get("m", "-") == "-":
         return None
-    return (f.get("k"), f.get("t"), hash(f.get("m")))
+    return (f.get("k"), f.get("t"), f.get("R"), f.get("p"), hash(f.get("m")))
 
 
 def histogram(line):
@@ -35,7 +35,7 @@ def histogram(line):
         keys.append("e2e:M=%d" % (f.get("pssm", "").count("/") + 1))
         return keys
     r = int(f.get("R", "0"))
-    for b in (0, 1, 2, 8, 64, 300, 1000, 3000):
+    for b in (0, 1, 2, 8, 64, 300, 1000, 3000, 32768, 70000):
         if r <= b:
             keys.append("rows<=%d" % b)
             break
@@ -78,7 +78,7 @@ SPEC = dict(
          "f32 kernels, re-read from the source on every run (translate/maxi_tables.py), are those of the model. "
          "Correspondence run — corpus: one unique maximum in every column x first/last row of all-negative f32 and "
          "of u8 matrices (1, 2, 5 rows) and of 16- and 48-column f32 matrices, maxima in rows >= 256 of 300/520-row matrices (row index wider than 8 "
-         "bits) and a low/high-row tie, all-equal / all -inf / all +inf / signed-zero matrices, no rows, max_index around "
+         "bits) and a low/high-row tie, u8 matrices of 32769..65536 rows with maxima in rows >= 32768 (row index negative as i16) incl. ties with a low row, and the 65537-row guard case (Panic 21), all-equal / all -inf / all +inf / signed-zero matrices, no rows, max_index around "
          "u32::MAX, end-to-end padding cases with L around the 32-column block size. Generated: 40% "
          "StripedScores<f32,U32>, 30% <u8,U32>, 10% <f32,U16>, 10% <f32,U48> (generic and SSE2 pipelines), 10% end-to-end (ScoringMatrix with -inf "
          "wildcard column, half of them produced by the library's own count->frequency->log-odds "
@@ -120,7 +120,7 @@ SPEC = dict(
         "(C07_dispatch_guards), also on a matrix without rows",
         "padding claim: cell = defined score (property C01, re-validated bit-exactly on every end-to-end case), "
         "wildcard column -inf, no term and no partial sum of a score is NaN or +inf (checked on every case)",
-        "not covered: NEON kernels (not compiled on this host); matrices with more than 3000 rows are not "
-        "executed (the 16-bit row-index limit of argmax_u8_avx2 at 65536 rows is proved about the model only)",
+        "not covered: NEON kernels (not compiled on this host); f32 matrices with more than 3000 rows are not "
+        "executed (u8 matrices are, up to the 65536-row limit of argmax_u8_avx2 and its guard at 65537 rows)",
     ],
 )
